@@ -214,16 +214,40 @@ DIRECTED_OK = {"indegree", "outdegree", "bildegree", "nsi_indegree", "nsi_outdeg
                "inarea_weighted_connectivity", "outarea_weighted_connectivity"}
 
 
-def equivariance(ctx, cname, make, perm, measures, n, replay_base):
-    """compare every zero-argument measure of the object with that of its permuted twin"""
+def arg_variants(cls, name):
+    """non-default call patterns of a measure that need no input of their own: every boolean
+    option flipped, every link-attribute option set to the attribute the test networks carry"""
+    try:
+        sig = inspect.signature(getattr(cls, name))
+    except (TypeError, ValueError):
+        return []
+    out = []
+    for p in list(sig.parameters.values())[1:]:
+        if isinstance(p.default, bool):
+            out.append({p.name: not p.default})
+        elif p.default is None and p.name in ("link_attribute", "key"):
+            out.append({p.name: "w"})
+    return out
+
+
+def equivariance(ctx, cname, make, perm, measures, n, replay_base, variants=False):
+    """compare every zero-argument measure of the object (with `variants`: also every
+    non-default call pattern of `arg_variants`) with that of its permuted twin"""
     net, pnet = make(None), make(perm)
     directed_extra = net.directed
     # grid distances are float32 computations: summation order matters at 1e-7
     rtol = 1e-7 if cname in ("Network", "RecurrenceNetwork", "JointRecurrenceNetwork",
                              "InterSystemRecurrenceNetwork") else 2e-5
-    for m in measures:
+    if variants:
+        calls = [(m, kw) for m in measures for kw in [{}] + arg_variants(type(net), m)]
+    else:
+        calls = [(m, {}) for m in measures]
+    for m, kw in calls:
+        shown = m if not kw else f"{m}({', '.join(f'{k}={v!r}' for k, v in kw.items())})"
+        if "w" in kw.values() and net.n_links == 0:
+            continue
         try:
-            v = quiet(getattr(net, m))
+            v = quiet(getattr(net, m), **kw)
         except Exception:  # noqa
             ctx.count(f"{cname}:raises")
             continue
@@ -232,15 +256,15 @@ def equivariance(ctx, cname, make, perm, measures, n, replay_base):
             ctx.count(f"{cname}:shape-not-judged")
             continue
         try:
-            got = quiet(getattr(pnet, m))
+            got = quiet(getattr(pnet, m), **kw)
         except Exception as ex:  # noqa
             ctx.fail({"kind": "raises-on-permuted", "class": cname, "measure": m},
-                     f"{cname}.{m}() raises {type(ex).__name__} on the permuted network only",
-                     dict(replay_base, measure=m, permutation=list(perm)))
+                     f"{cname}.{shown} raises {type(ex).__name__} on the permuted network only",
+                     dict(replay_base, measure=m, kwargs=kw, permutation=list(perm)))
             continue
-        ctx.count(f"{cname}:measures-compared")
+        ctx.count(f"{cname}:measures-compared" + (":non-default-args" if kw else ""))
         if not same_val(exp, got, rtol):
-            r = dict(replay_base, measure=m, permutation=list(perm))
+            r = dict(replay_base, measure=m, kwargs=kw, permutation=list(perm))
             try:
                 r.update(expected=np.asarray(exp, dtype=float).round(6).tolist(),
                          observed=np.asarray(got, dtype=float).round(6).tolist())
@@ -249,7 +273,7 @@ def equivariance(ctx, cname, make, perm, measures, n, replay_base):
             ctx.fail({"kind": "not-equivariant", "class": cname, "measure": m,
                       "input_class": "directed" if directed_extra and m not in DIRECTED_OK
                       else "any"},
-                     f"{cname}.{m}() on permuted_copy({list(perm)}) is not the permuted result",
+                     f"{cname}.{shown} on permuted_copy({list(perm)}) is not the permuted result",
                      r)
 
 
@@ -372,7 +396,9 @@ def run(ctx):
             reqs.append(request("evalrelabel", net, W, g0, g1, extra=",".join(map(str, perm)) + " "))
             meta.append(("evalrelabel", gi, perm, p_impl))
             # generic oracle on the implementation
-            equivariance(ctx, "Network", mk_net, perm, meas["Network"], n, base)
+            # non-default call patterns on a sample of the (graph, permutation) pairs in the quick tier
+            equivariance(ctx, "Network", mk_net, perm, meas["Network"], n, base,
+                         variants=(not quick) or rng.random() < 0.12)
             if A.sum() > 0:
                 equivariance(ctx, "SpatialNetwork", mk_spatial, perm,
                              [m for m in meas["SpatialNetwork"] if m not in meas["Network"]], n,
